@@ -195,6 +195,8 @@ pub enum Op {
     /// the input that starts at model item j, keeping the record sets: a RecordSet may be reused
     /// across readers
     Restart(usize),
+    /// RecordSet::shrink_buffer_to_fit() on a slot (contents must stay the same)
+    ShrinkSet(usize),
 }
 
 #[derive(Serialize, Deserialize, Clone, Debug, PartialEq, Default)]
